@@ -34,3 +34,86 @@ def replay_merge(case):
     same = set(m.columns) == set(step2.columns) and all((m[c].to_numpy() == step2[c].to_numpy()).all() for c in m.columns)
     return {"fails": not same, "module": "contracts.c06_native.replay_merge",
             "observed": "merged=%s sequential=%s" % (m.to_dict("list"), step2.to_dict("list"))}
+
+
+def replay_merge_decision(case):
+    """case = {"columns", "self": {partition_by, order_by, reverse, windowed, is_extend}, "new": {partition_by (list or 1), order_by, reverse, ops_imply_window}}.
+    Builds the existing step and the new step through the REAL builders (which make the merge decision) and compares the chained pipeline with
+    step-by-step evaluation on Pandas, on tables whose order columns are permutations (every declared order is total)."""
+    import itertools
+    import warnings
+    import pandas
+    from data_algebra.data_ops import TableDescription, describe_table
+
+    warnings.filterwarnings("ignore")
+    sp, nw = case["self"], case["new"]
+    if not sp.get("is_extend"):
+        return {"fails": False, "observed": "the existing step of the model is not an extend node: nothing to merge"}
+    cols = [c for c in case["columns"] if c != "c_unnamed"]
+    for L in (sp["partition_by"], sp["order_by"], sp["reverse"], nw["order_by"], nw["reverse"], nw["partition_by"] if isinstance(nw["partition_by"], list) else []):
+        for c in L:
+            if c not in cols:
+                cols.append(c)
+    td = TableDescription(table_name="d", column_names=["rid", "x"] + cols)
+
+    def ops_for(windowed, ordered, name):
+        if not windowed:
+            return {name: "x + 1"}
+        return {name: "x.cumsum()"} if ordered else {name: "x.sum()"}
+
+    def pb_arg(pb, windowed, ordered):
+        if pb == 1:
+            return 1
+        if len(pb) == 0 and windowed and not ordered:
+            return 1
+        return list(pb)
+
+    s_ordered = len(sp["order_by"]) > 0
+    n_windowed = nw["partition_by"] == 1 or (isinstance(nw["partition_by"], list) and len(nw["partition_by"]) > 0) or len(nw["order_by"]) > 0 or nw["ops_imply_window"]
+    n_ordered = len(nw["order_by"]) > 0
+    a1 = dict(partition_by=pb_arg(sp["partition_by"], sp["windowed"], s_ordered), order_by=list(sp["order_by"]) or None, reverse=list(sp["reverse"]) or None)
+    a2 = dict(partition_by=pb_arg(nw["partition_by"], n_windowed, n_ordered), order_by=list(nw["order_by"]) or None, reverse=list(nw["reverse"]) or None)
+    if not sp["windowed"]:
+        a1 = {}
+    try:
+        n1 = td.extend(ops_for(sp["windowed"], s_ordered, "r1"), **a1)
+    except Exception as ex:
+        return {"fails": False, "observed": "the existing step of the model cannot be built (%s: %s): not a reachable state" % (type(ex).__name__, str(ex)[:80])}
+    if bool(n1.windowed_situation) != bool(sp["windowed"]) or list(n1.order_by) != list(sp["order_by"]) or list(n1.partition_by) != [c for c in (sp["partition_by"] if isinstance(sp["partition_by"], list) else [])]:
+        return {"fails": False, "observed": "the built step does not have the model's window specification: not a reachable state"}
+    new_ops = ops_for(n_windowed, n_ordered, "r2")
+    try:
+        chain = n1.extend(new_ops, **(a2 if n_windowed else {}))
+        chain_err = None
+    except Exception as ex:
+        chain, chain_err = None, "%s: %s" % (type(ex).__name__, str(ex)[:100])
+    n = 6
+    perms = list(itertools.permutations(range(n)))
+    bad = None
+    for t in range(4):
+        data = {"rid": list(range(n)), "x": [float(2 ** i) for i in range(n)]}
+        for ci, c in enumerate(cols):
+            data[c] = [r % 2 for r in range(n)] if c in (sp["partition_by"] if isinstance(sp["partition_by"], list) else []) or c in (nw["partition_by"] if isinstance(nw["partition_by"], list) else []) \
+                else list(perms[(97 * (ci + 1) + 131 * t) % len(perms)])
+        d = pandas.DataFrame(data)
+        try:
+            r1 = n1.eval({"d": d})
+            td2 = describe_table(r1, table_name="d2")
+            step = td2.extend(new_ops, **(a2 if n_windowed else {}))
+            r2 = step.eval({"d2": r1})
+            step_err = None
+        except Exception as ex:
+            r2, step_err = None, "%s: %s" % (type(ex).__name__, str(ex)[:100])
+        if (chain_err is None) != (step_err is None):
+            bad = "chained pipeline: %s; step by step: %s" % (chain_err or "accepted", step_err or "accepted")
+            break
+        if chain_err is not None:
+            continue
+        rc = chain.eval({"d": d})
+        a = rc.sort_values("rid").reset_index(drop=True)
+        b = r2.sort_values("rid").reset_index(drop=True)
+        if set(a.columns) != set(b.columns) or any(a[c].tolist() != b[c].tolist() for c in a.columns):
+            bad = "on d=%s the chained pipeline gives r1=%s r2=%s, step by step r1=%s r2=%s" % (d.drop(columns=["rid"]).to_dict("list"), a["r1"].tolist(), a["r2"].tolist(), b["r1"].tolist(), b["r2"].tolist())
+            break
+    pipeline = "d.extend(%r, %r).extend(%r, %r)" % (ops_for(sp["windowed"], s_ordered, "r1"), a1, new_ops, a2 if n_windowed else {})
+    return {"fails": bad is not None, "module": "contracts.c06_native.replay_merge_decision", "observed": (pipeline + ": " + bad) if bad else "chained and step-by-step results agree for " + pipeline}
